@@ -49,7 +49,7 @@ def make(backend, system, rows, mom):
     if backend.startswith("numpy-"):
         import vector
 
-        dt = {"int64": numpy.int64, "float32": numpy.float32}[backend.split("-")[1]]
+        dt = {"int64": numpy.int64, "float32": numpy.float32, "bigendian": ">f8"}[backend.split("-")[1]]
         names = R.field_names(system)
         arr = numpy.zeros(len(rows), dtype=[(n, dt) for n in names])
         for i, n in enumerate(names):
@@ -123,7 +123,7 @@ def run_shard(spec, tier, seed):
     def V(mech, **d):
         res.violation(f"C04/{mech}", d)
 
-    for backend in ("mp", "object", "numpy", "awkward", "numpy-int64", "numpy-float32", "awkward-int64", "awkward-float32"):
+    for backend in ("mp", "object", "numpy", "awkward", "numpy-int64", "numpy-float32", "awkward-int64", "awkward-float32", "numpy-bigendian"):
         bkey = f"{backend}|{fl}"
         typed = backend.startswith(("numpy-", "awkward-"))
         if backend.startswith("awkward-") and mom and not any(B.MOM_SPELL[x] for x in R.field_names(system)):
@@ -201,7 +201,7 @@ def run_shard(spec, tier, seed):
         # ------------------------------------------------------------ (iii)-(vi) dimension changes, bit for bit, special values
         if backend == "mp":
             srows = [l.exact_coords() for l in lrows]
-        elif typed:
+        elif typed and not backend.endswith("bigendian"):
             # integer / float32 stored columns: values exactly representable in the column dtype
             srows = [tuple(float(int(c * 4) % 7 + 1) if system[min(i, len(system) - 1)] else 0.0 for i, c in enumerate(row)) for row in core_rows]
         else:
